@@ -58,6 +58,8 @@ struct World {
     threads: RefCell<Vec<Vec<Vec<String>>>>,
     /// pending script: (invocation index, step tokens), consumed by the next loop/search
     script: RefCell<Vec<(usize, Vec<String>)>>,
+    /// pending extra script (container operations, nested searches/loops, comparisons, sizeof) run from inside the next loop/search
+    xscript: RefCell<Vec<(usize, Vec<String>)>>,
 }
 
 
@@ -146,6 +148,8 @@ struct CbState<'a> {
     w: &'a World,
     pred: Pred,
     script: Vec<(usize, Vec<String>)>,
+    xscript: Vec<(usize, Vec<String>)>,
+    xlog: RefCell<Vec<String>>,
     count: Cell<usize>,
     trace: RefCell<Vec<String>>,
     log: RefCell<Vec<String>>,
@@ -154,7 +158,8 @@ struct CbState<'a> {
 impl<'a> CbState<'a> {
     fn new(w: &'a World, pred: Pred) -> Self {
         let script = std::mem::take(&mut *w.script.borrow_mut());
-        CbState { w, pred, script, count: Cell::new(0), trace: RefCell::new(vec![]), log: RefCell::new(vec![]) }
+        let xscript = std::mem::take(&mut *w.xscript.borrow_mut());
+        CbState { w, pred, script, xscript, xlog: RefCell::new(vec![]), count: Cell::new(0), trace: RefCell::new(vec![]), log: RefCell::new(vec![]) }
     }
     fn on_edge(&self, e: &Ed) -> bool {
         self.trace.borrow_mut().push(fmt_edge(e));
@@ -164,6 +169,12 @@ impl<'a> CbState<'a> {
             if *i == k {
                 let r = exec_node_step(self.w, st).unwrap_or_else(|| "unknown".to_string());
                 self.log.borrow_mut().push(r.split(' ').take(2).collect::<Vec<_>>().join("_"));
+            }
+        }
+        for (i, st) in &self.xscript {
+            if *i == k {
+                let r = exec_any(self.w, st);
+                self.xlog.borrow_mut().push(r.replace(' ', "_"));
             }
         }
         self.pred.eval(e)
@@ -179,6 +190,13 @@ impl<'a> CbState<'a> {
         if !self.script.is_empty() {
             s.push_str(" | log");
             for l in self.log.borrow().iter() {
+                s.push(' ');
+                s.push_str(l);
+            }
+        }
+        if !self.xscript.is_empty() {
+            s.push_str(" | xlog");
+            for l in self.xlog.borrow().iter() {
                 s.push(' ');
                 s.push_str(l);
             }
@@ -443,7 +461,12 @@ fn exec_graph_step(w: &World, st: &[String]) -> Option<String> {
     let gi = |i: &String| pusize(i);
     Some(match st[0].as_str() {
         "gnew" => {
-            w.graphs.borrow_mut().push(Graph::new());
+            let g = match st.get(1).map(|x| x.as_str()) {
+                Some("cap") => graph_cap!(pusize(&st[2])),
+                Some("def") => Default::default(),
+                _ => Graph::new(),
+            };
+            w.graphs.borrow_mut().push(g);
             "ok".to_string()
         }
         "gins" => guarded(|| {
@@ -461,7 +484,11 @@ fn exec_graph_step(w: &World, st: &[String]) -> Option<String> {
         }),
         "gidx" => guarded(|| {
             let gs = w.graphs.borrow();
-            format!("idx {}", gs[gi(&st[1])][pu64(&st[2])].key())
+            let k = pu64(&st[2]);
+            let by_ref = idx_ref!(gs[gi(&st[1])], k);
+            let n = &gs[gi(&st[1])][k];
+            // Deref: a node dereferences to its value
+            format!("idx {}{}{}", n.key(), if by_ref != *n.key() { " IDXREF!" } else { "" }, if **n != *n.value() { " DEREF!" } else { "" })
         }),
         "ghas" => guarded(|| format!("has {}", w.graphs.borrow()[gi(&st[1])].contains(&pu64(&st[2])) as u8)),
         "glen" => guarded(|| {
@@ -596,8 +623,82 @@ fn exec_graph_step_flavour(w: &World, st: &[String]) -> Option<String> {
     })
 }
 
+/// every step kind; used at top level and (for the extra script) from inside callbacks
+fn exec_any(w: &World, st: &[String]) -> String {
+    if let Some(o) = exec_node_step(w, st) {
+        o
+    } else if let Some(o) = exec_graph_step(w, st) {
+        o
+    } else if let Some(o) = exec_graph_step_flavour(w, st) {
+        o
+    } else {
+        match st[0].as_str() {
+            "scr" => {
+                w.script.borrow_mut().push((pusize(&st[1]), st[2..].to_vec()));
+                "ok".to_string()
+            }
+            "scx" => {
+                w.xscript.borrow_mut().push((pusize(&st[1]), st[2..].to_vec()));
+                "ok".to_string()
+            }
+            "size" => guarded(|| {
+                // sizeof of a node and of every container: exercised for panics / self-deadlock only
+                let n = w.nodes.borrow()[pusize(&st[1])].clone();
+                let a = n.sizeof();
+                let b: usize = w.graphs.borrow().iter().map(|g| graph_sizeof!(g)).sum();
+                format!("ok{}", if a == 0 || b == usize::MAX { "?" } else { "" })
+            }),
+            "thr" => {
+                let t = pusize(&st[1]);
+                let mut th = w.threads.borrow_mut();
+                while th.len() <= t {
+                    th.push(Vec::new());
+                }
+                th[t].push(st[2..].to_vec());
+                "ok".to_string()
+            }
+            "sched" => {
+                let nodes: Vec<N> = w.nodes.borrow().clone();
+                let progs = w.threads.borrow().clone();
+                let schedule: Vec<usize> = st[1..].iter().map(|x| pusize(x)).collect();
+                conc_step!(&nodes, &progs, &schedule)
+            }
+            "srch" => guarded(|| run_search(w, st)),
+            "loop" => guarded(|| run_loop(w, st)),
+            "ecmp" => guarded(|| {
+                let a = w.nodes.borrow()[pusize(&st[1])].clone();
+                let b = w.nodes.borrow()[pusize(&st[3])].clone();
+                match (a.iter_out().nth(pusize(&st[2])), b.iter_out().nth(pusize(&st[4]))) {
+                    (Some(x), Some(y)) => format!(
+                        "ecmp eq={} cmp={:?} pcmp={:?} rev={} rr={}",
+                        (x == y) as u8,
+                        x.cmp(&y),
+                        x.partial_cmp(&y),
+                        fmt_edge(&x.reverse()),
+                        fmt_edge(&x.reverse().reverse())
+                    ),
+                    _ => "none".to_string(),
+                }
+            }),
+            "cmp" => guarded(|| {
+                let a = w.nodes.borrow()[pusize(&st[1])].clone();
+                let b = w.nodes.borrow()[pusize(&st[2])].clone();
+                format!(
+                    "cmp eq={} lt={} le={} cmp={:?} pcmp={:?}",
+                    (a == b) as u8,
+                    (a < b) as u8,
+                    (a <= b) as u8,
+                    a.cmp(&b),
+                    a.partial_cmp(&b)
+                )
+            }),
+            other => format!("unknown-step {}", other),
+        }
+    }
+}
+
 pub fn run_case(case: &Case, sink: &mut dyn FnMut(usize, String)) {
-    let w = World { nodes: RefCell::new(Vec::new()), graphs: RefCell::new(Vec::new()), threads: RefCell::new(Vec::new()), script: RefCell::new(Vec::new()) };
+    let w = World { nodes: RefCell::new(Vec::new()), graphs: RefCell::new(Vec::new()), threads: RefCell::new(Vec::new()), script: RefCell::new(Vec::new()), xscript: RefCell::new(Vec::new()) };
     for (si, st) in case.steps.iter().enumerate() {
         // `only:<flavour>` restricts a step to one flavour (API not common to the twins)
         let mut st: &[String] = st;
@@ -608,58 +709,7 @@ pub fn run_case(case: &Case, sink: &mut dyn FnMut(usize, String)) {
             }
             st = &st[1..];
         }
-        let obs = if let Some(o) = exec_node_step(&w, st) {
-            o
-        } else if let Some(o) = exec_graph_step(&w, st) {
-            o
-        } else if let Some(o) = exec_graph_step_flavour(&w, st) {
-            o
-        } else {
-            match st[0].as_str() {
-                "scr" => {
-                    w.script.borrow_mut().push((pusize(&st[1]), st[2..].to_vec()));
-                    "ok".to_string()
-                }
-                "thr" => {
-                    let t = pusize(&st[1]);
-                    let mut th = w.threads.borrow_mut();
-                    while th.len() <= t {
-                        th.push(Vec::new());
-                    }
-                    th[t].push(st[2..].to_vec());
-                    "ok".to_string()
-                }
-                "sched" => {
-                    let nodes: Vec<N> = w.nodes.borrow().clone();
-                    let progs = w.threads.borrow().clone();
-                    let schedule: Vec<usize> = st[1..].iter().map(|x| pusize(x)).collect();
-                    conc_step!(&nodes, &progs, &schedule)
-                }
-                "srch" => guarded(|| run_search(&w, st)),
-                "loop" => guarded(|| run_loop(&w, st)),
-                "ecmp" => guarded(|| {
-                    let a = w.nodes.borrow()[pusize(&st[1])].clone();
-                    let b = w.nodes.borrow()[pusize(&st[3])].clone();
-                    match (a.iter_out().nth(pusize(&st[2])), b.iter_out().nth(pusize(&st[4]))) {
-                        (Some(x), Some(y)) => format!("ecmp eq={} cmp={:?} pcmp={:?}", (x == y) as u8, x.cmp(&y), x.partial_cmp(&y)),
-                        _ => "none".to_string(),
-                    }
-                }),
-                "cmp" => guarded(|| {
-                    let a = w.nodes.borrow()[pusize(&st[1])].clone();
-                    let b = w.nodes.borrow()[pusize(&st[2])].clone();
-                    format!(
-                        "cmp eq={} lt={} le={} cmp={:?} pcmp={:?}",
-                        (a == b) as u8,
-                        (a < b) as u8,
-                        (a <= b) as u8,
-                        a.cmp(&b),
-                        a.partial_cmp(&b)
-                    )
-                }),
-                other => format!("unknown-step {}", other),
-            }
-        };
+        let obs = exec_any(&w, st);
         sink(si, obs);
     }
 }
